@@ -3,7 +3,6 @@ trace monitors decide each property) and the common verdict logic."""
 import json, os, random, sys
 
 import vlib
-import fam_own
 
 COMPOSITE = "pkg/controller/composite"
 DECORATOR = "pkg/controller/decorator"
@@ -173,32 +172,34 @@ def sync_level(scr, tier, prop, prefix, plan, replay_file=None):
 
 
 # --------------------------------------------------------------------------------------
-# property plans
-
-OWN_PLAN = {
-    "pkg": COMPOSITE,
-    "mc": {
-        "quick": [("MC_Own", "MC_Own_quick.cfg", None), ("MC_Own", "MC_Own_norecheck.cfg", "C04_AdoptRecheck")],
-        "thorough": [("MC_Own", "MC_Own_full.cfg", None), ("MC_Own", "MC_Own_recreate.cfg", None), ("MC_Own", "MC_Own_race.cfg", None),
-                     ("MC_Own", "MC_Own_norecheck.cfg", "C04_AdoptRecheck"), ("MC_Own", "MC_Own_literal.cfg", "C02_Literal")],
-    },
-    "beh": {
-        "quick": [("MC_Own", "Beh_Own_q.cfg", fam_own.convert, 500), ("MC_Own", "Beh_Own_q_recreate.cfg", fam_own.convert, 300),
-                  ("MC_Own", "Beh_Own_race_q.cfg", fam_own.convert, 300)],
-        "thorough": [("MC_Own", "Beh_Own_t.cfg", fam_own.convert, 0), ("MC_Own", "Beh_Own_t_recreate.cfg", fam_own.convert, 0),
-                     ("MC_Own", "Beh_Own_race_t.cfg", fam_own.convert, 20000)],
-    },
-    "core": lambda s: bool(s["expect"].get("modelViol")),
-    "drift": fam_own.drift,
-}
+# registry: every lib/p_Cxx.py defines run(scr, tier, replay_file) and MANIFEST
 
 
-def run_C02(scr, tier, replay_file):
-    return sync_level(scr, tier, "C02", "C02_", OWN_PLAN, replay_file)
+def _discover():
+    import glob, importlib
+    reg, man = {}, {}
+    for f in sorted(glob.glob(os.path.join(os.path.dirname(os.path.abspath(__file__)), "p_C*.py"))):
+        name = os.path.basename(f)[:-3]
+        mod = importlib.import_module(name)
+        pid = name[2:]
+        reg[pid] = mod.run
+        man[pid] = mod.MANIFEST
+    return reg, man
 
 
-def run_C04(scr, tier, replay_file):
-    return sync_level(scr, tier, "C04", "C04_", OWN_PLAN, replay_file)
+class _Lazy(dict):
+    def _load(self):
+        if not dict.__len__(self):
+            reg, _ = _discover()
+            dict.update(self, reg)
+
+    def __contains__(self, k):
+        self._load()
+        return dict.__contains__(self, k)
+
+    def __getitem__(self, k):
+        self._load()
+        return dict.__getitem__(self, k)
 
 
-REGISTRY = {"C02": run_C02, "C04": run_C04}
+REGISTRY = _Lazy()
